@@ -766,10 +766,14 @@ REUSED_FORMAT_FS = {"grp": custom_md_formatter}
 
 
 def written_h5_case(ctx, spec, route, compress, base_path, with_exit=False, tags=(), creation_date=None,
-                    fvs=H5_FVS, via="to_hdf5", t=None, format_fs=None, poke=True, reject=False):
+                    fvs=H5_FVS, via="to_hdf5", t=None, format_fs=None, poke=True, reject=False,
+                    route_override=None):
     """write with the real to_hdf5 (or save_table) onto `base_path` and validate that very file"""
+    if route_override is not None and t is None:
+        route = route_override
     cd = creation_date.isoformat() if creation_date is not None else None
-    case = {"fmt": "hdf5", "spec": spec, "route": route, "muts": [], "compress": compress, "creation_date": cd,
+    case = {"fmt": "hdf5", "spec": spec, "route": route, "muts": [], "compress": bool(compress),
+            "compress_as": repr(compress), "creation_date": cd,
             "via": via, "format_fs": sorted(format_fs) if format_fs else None}
     ctx.case({"fmt": "hdf5", "spec": core.spec_obs(spec), "route": route, "c": int(compress), "cd": cd,
               "via": via, "tags": list(tags), "ffs": sorted(format_fs) if format_fs else None}, nontrivial=True)
@@ -953,6 +957,9 @@ def text_class_spec(rng, kind, classes):
         keys = list(spec["omd"][0])
         spec["omd"] = [{keys[0]: rng.choice(nasty), "n": i} for i in range(n)]
     spec["smd"] = [{"note": rng.choice(nasty)} for _ in range(m)] if rng.random() < 0.6 else None
+    if rng.random() < 0.4:
+        spec["omd"] = field_named_md(rng, spec["obs"], spec["samp"], "obs")
+        spec["smd"] = field_named_md(rng, spec["samp"], spec["obs"], "samp")
     if rng.random() < 0.5:
         spec["table_id"] = rng.choice(nasty)
     assert len(set(spec["obs"])) == n and len(set(spec["samp"])) == m, (spec["obs"], spec["samp"])
@@ -982,6 +989,23 @@ def table_with_group_md(spec):
                  copy.deepcopy(spec.get("smd")), type=spec["type"],
                  observation_group_metadata={"phylogeny": ("newick", "((a:0.1,b:0.2):0.3,c);")},
                  sample_group_metadata={"rel": ("text", "50% of \"them\"")})
+
+
+# metadata categories named like the top-level fields of the JSON format (the text-level subsetter looks
+# fields up in the TEXT); observation metadata never gets "columns": that one is known finding F-C14-2
+FIELD_NAMES = ["type", "date", "format", "shape", "rows", "data", "id", "format_url", "matrix_type",
+               "generated_by", "matrix_element_type", "columns"]
+
+
+def field_named_md(rng, ids, other_ids, axis):
+    names = [x for x in FIELD_NAMES if not (axis == "obs" and x == "columns")]
+    rng.shuffle(names)
+    cats = names[:rng.randint(1, 4)]
+    # a category named like an ID of this axis, one named like an ID of the other axis
+    cats += [rng.choice(ids), rng.choice(other_ids)] if ids and other_ids else []
+    cats = [c for k, c in enumerate(cats) if c not in cats[:k]]
+    vals = ["gut", "2019/03/01", "1.0.0", "x y", "7", "OTU table"]
+    return [{c: rng.choice(vals) + str(i) for c in cats} for i in range(len(ids))]
 
 
 def run_cli(cmd, args):
@@ -1038,18 +1062,31 @@ def cli_writer_cases(ctx, rng, shared, k):
     import h5py
     exact = ("count", "smallcount", "dyadic", "neg")
     if k % 3 == 0:
-        spec = hard_id_spec(rng, ("samp", "obs", "both")[k % 3], exact)
+        spec = hard_id_spec(rng, ("samp", "obs", "both")[(k // 3) % 3], exact)
+    elif k % 3 == 1:
+        # plain IDs, metadata categories named like top-level fields and like IDs
+        spec = core.gen_spec(rng, max_n=5, max_m=5, min_n=2, min_m=2, classes=exact, alphabet="ascii", md=False)
+        spec["type"] = spell_type(rng)
+        spec["omd"] = field_named_md(rng, spec["obs"], spec["samp"], "obs")
+        spec["smd"] = field_named_md(rng, spec["samp"], spec["obs"], "samp")
+        ctx.count("cli-writer:field-named-metadata")
     else:
         spec = gen_base_spec(rng, exact, max_n=5, max_m=5, min_n=2, min_m=2)
-    if k % 2:
-        spec["omd"] = core.gen_md(rng, spec["obs"], "tax")
-        spec["smd"] = core.gen_md(rng, spec["samp"], "text")
+        if k % 2:
+            spec["omd"] = core.gen_md(rng, spec["obs"], "tax")
+            spec["smd"] = core.gen_md(rng, spec["samp"], "text")
     src = os.path.join(TMP, F_CASE)
     t = core.build(spec, rng.choice(core.ROUTES))
-    src_fmt = "json" if k % 2 == 0 else "hdf5"
+    # plain-ID tables (k % 3 == 1) always go through the JSON text front ends; the others alternate
+    src_fmt = "json" if (k % 3 == 1 or (k // 3) % 2 == 0) else "hdf5"
+    if k % 3 == 2:
+        src_fmt = "hdf5" if (k // 3) % 2 == 0 else "json"
     if src_fmt == "json":
         with open(src, "w") as f:
-            f.write(t.to_json("c15-harness"))
+            if k % 4 == 3:
+                t.to_json("c15-harness", direct_io=f)
+            else:
+                f.write(t.to_json("c15-harness"))
     else:
         with h5py.File(src, "w") as f:
             t.to_hdf5(f, "c15-harness")
@@ -1057,6 +1094,7 @@ def cli_writer_cases(ctx, rng, shared, k):
     plain = all("\n" not in i and "\r" not in i and i == i.strip() and i for i in spec["obs"] + spec["samp"])
     import re
     jobs = []
+    required = []
     # convert, both targets, with and without --table-type (canonical spelling of the table's own type)
     canon = [v for v in VOCAB if v.lower() == spec["type"].lower()][0]
     for target in ("--to-json", "--to-hdf5"):
@@ -1083,30 +1121,53 @@ def cli_writer_cases(ctx, rng, shared, k):
     slicer_safe = src_fmt == "hdf5" or all(re.match(r"^[A-Za-z0-9_. \-]+$", i) for i in spec["obs"] + spec["samp"])
     # the ids file is line- and tab-separated text
     if plain and slicer_safe and all(i.isprintable() and "\t" not in i for i in spec["obs"] + spec["samp"]):
-        ax = rng.choice(["sample", "observation"])
-        keep = spec["samp"] if ax == "sample" else spec["obs"]
-        keep = keep[:max(1, len(keep) - 1)]
         ip = os.path.join(TMP, "ids_%d.txt" % PID)
-        with open(ip, "w") as f:
-            f.write("\n".join(keep) + "\n")
-        jobs.append(("subset-table", subset_table,
-                     [("-j" if src_fmt == "json" else "-i"), src, "-a", ax, "-s", ip, "-o", shared], None, None))
+        for variant in ("once", "repeated"):
+            ax = rng.choice(["sample", "observation"])
+            axis_ids = spec["samp"] if ax == "sample" else spec["obs"]
+            chosen = [i for i in axis_ids if rng.random() < 0.6] or axis_ids[:1]
+            request = list(chosen)
+            if variant == "repeated":
+                # two ID lists concatenated: every chosen ID is named at least twice, in another order
+                request = request + list(reversed(chosen)) + chosen[:1]
+            else:
+                rng.shuffle(request)
+            expect = {"obs": spec["obs"], "samp": spec["samp"]}
+            expect["samp" if ax == "sample" else "obs"] = [i for i in axis_ids if i in chosen]
+            required.append(("subset-table:%s" % variant, subset_table,
+                             [("-j" if src_fmt == "json" else "-i"), src, "-a", ax, "-s", ip, "-o", shared],
+                             expect if src_fmt == "json" else None, None, request))
+    # output path == input path
+    for target in ("--to-json", "--to-hdf5"):
+        jobs.append(("convert%s:in-place" % target, convert, ["-i", src, "-o", src, target], ids, spec))
     rng.shuffle(jobs)
-    for name, cmd, args, sids, sfull in jobs[:4] if ctx.quick() else jobs:
-        if os.path.exists(shared):
-            os.remove(shared)
-        case = {"fmt": "cli", "spec": spec, "src_fmt": src_fmt, "cli": name,
+    inplace_jobs = [j for j in jobs if j[0].endswith(":in-place")]
+    other_jobs = [j for j in jobs if not j[0].endswith(":in-place")]
+    todo = [j + (None,) for j in (other_jobs[:3] if ctx.quick() else other_jobs)] + required
+    # the in-place conversion overwrites the source: last, and only one of the two
+    todo += [j + (None,) for j in inplace_jobs[:1]]
+    for name, cmd, args, sids, sfull, request in todo:
+        out = args[args.index("-o") + 1]
+        if out != src and os.path.exists(out):
+            os.remove(out)
+        if request is not None:
+            with open(os.path.join(TMP, "ids_%d.txt" % PID), "w") as f:
+                f.write("\n".join(request) + "\n")
+        case = {"fmt": "cli", "spec": spec, "src_fmt": src_fmt, "cli": name, "request": request,
                 "args": [a if a not in (src, shared) else ("<src>" if a == src else "<out>") for a in args]}
-        ctx.case({"cli": name, "spec": core.spec_obs(spec), "src": src_fmt}, nontrivial=True)
+        ctx.case({"cli": name, "spec": core.spec_obs(spec), "src": src_fmt, "req": request}, nontrivial=True)
         ctx.count("cli-writer:%s:%s" % (name, src_fmt))
         code, exc = run_cli(cmd, args)
         tg = ("cli-writer:%s" % name, "source:%s" % src_fmt)
         if code != 0:
-            ctx.count("cli-writer:%s->exit%d" % (name, code))
+            ctx.count("cli-writer:%s:%s->exit%d" % (name, src_fmt, code))
+            if name == "subset-table:repeated" and src_fmt == "hdf5" and exc == "ValueError" and not os.path.exists(out):
+                # the HDF5 reader refuses a request that names an ID twice: nothing was written
+                continue
             ctx.fail(case, "written_valid", tg + ("writer-raised:%s" % exc,))
             continue
         # normalised values / added metadata differ from the source table: only validity and IDs are judged
-        judge_output_file(ctx, case, shared, sids, sfull if name.startswith("convert--to-json") else None, tg)
+        judge_output_file(ctx, case, out, sids, sfull if name.startswith("convert--to-json") else None, tg)
     for fn in ("map_%d.txt" % PID, "ids_%d.txt" % PID):
         try:
             os.remove(os.path.join(TMP, fn))
@@ -1181,8 +1242,34 @@ def less_travelled_cases(ctx, rng, shared):
         spec["type"] = spell_type(rng)
         written_json_case(ctx, spec, "csr", tags=("wide:>512",), path=shared, fvs=(None,), poke=False)
         written_h5_case(ctx, spec, "csc", True, shared, tags=("wide:>512",), fvs=(None,), poke=False)
+    # a second write: the table read back from a file (metadata values as the readers hand them back:
+    # numpy scalars, None, group metadata payloads) is written again, in both formats
+    import h5py
+    import numpy as np
+    from biom import load_table
+    for i in range(4 if quick else 24):
+        spec = gen_base_spec(rng, exact, max_n=4, max_m=4, min_n=2, min_m=2)
+        spec["omd"] = [{"n": k, "f": k / 4.0, "flag": bool(k % 2), "none": None, "taxonomy": ["a", "b%d" % k]}
+                       for k in range(len(spec["obs"]))]
+        spec["smd"] = [{"grp": "g%d" % k, "deep": {"a": {"b": [k, None]}}} if i % 2 else {"grp": "g%d" % k}
+                       for k in range(len(spec["samp"]))]
+        first = os.path.join(TMP, F_CASE)
+        t0 = table_with_group_md(spec) if i % 2 == 0 else core.build(spec, rng.choice(core.ROUTES))
+        if i % 2 == 0:
+            # nested metadata is not an HDF5 matter: the HDF5 source carries the flat categories only
+            with h5py.File(first, "w") as f:
+                t0.to_hdf5(f, "c15-harness")
+        else:
+            with open(first, "w") as f:
+                f.write(t0.to_json("c15-harness"))
+        loaded = load_table(first)
+        tg = ("second-write", "source:%s" % ("hdf5" if i % 2 == 0 else "json"))
+        written_json_case(ctx, spec, "live", tags=tg, path=shared, t=loaded, fvs=(None,))
+        written_h5_case(ctx, spec, "live", rng.choice([True, False, 1, 0, np.True_, np.False_]), shared, tags=tg,
+                        t=load_table(first) if i % 2 == 0 else None, fvs=(None, "2.1.0"),
+                        route_override=rng.choice(core.ROUTES))
     # command-line front ends as writers
-    for k in range(6 if quick else 24):
+    for k in range(8 if quick else 24):
         cli_writer_cases(ctx, rng, shared, k)
 
 
